@@ -169,6 +169,8 @@ func VerifCrash(kv map[string]string) string {
 	if err != nil {
 		return "setup-error"
 	}
+	// the number of controller replicas the leader has counted (0 = not known yet): scaled rate limits divide by it
+	w.lbc.configurator.SetIngressControllerReplicas(int(seed % 3))
 	if kv["cm"] == "1" { // cert-manager support: challenge Ingresses are attached to the VirtualServer that owns their host
 		w.lbc.configuration.isCertManagerEnabled = true
 	}
